@@ -166,7 +166,7 @@ theorem c02_compile_min_optimum_partial {m : Model (Ext K)} {t : K} (ht : 0 ≤ 
     (hopt : ∀ ρ₂ : String → K, srcFeasible m ρ₂ = true → ∀ v₂, eval ρ₂ m.objective = some v₂ → v ≤ v₂) :
     (∃ ρ' : String → K, linFeasible lm ρ' = true ∧ linObjective lm ρ' = some v) ∧
     (∀ ρ'' : String → K, linFeasible lm ρ'' = true → ∀ w, linObjective lm ρ'' = some w → v ≤ w) := by
-  obtain ⟨an, han, hlin⟩ := (compile_ok_iff m _ maxSteps lm).mp h
+  obtain ⟨_, an, han, hlin⟩ := (compile_ok_iff m _ maxSteps lm).mp h
   obtain ⟨hdom, hbox⟩ := pipeline_hyps ht maxSteps hm hok han (Or.inl ht1)
   exact c02_min_optimum_partial hlin (fragModel_applyToDomain an hm) hdom hbox hmin ρ hs v hv hopt
 
